@@ -471,8 +471,12 @@ func acctScenarios(prop, tier string) []acctScenario {
 		b, u string
 		d    int
 	}{{"1000", "2", 4}, {"0", "2", 3}, {"1", "2", 3}, {"2", "2", 3}, {"199", "2", 4}, {"200", "2", 4}, {"150", "3", 4}, {"100", "1", 4}} {
+		reqs := []int32{50, 100}
+		if a.u == "3" {
+			reqs = append(reqs, 1431655766) // x 3 = 2^32 + 2: the price of the request wraps around 32 bits
+		}
 		scs = append(scs, acctScenario{name: "1sess-b" + a.b + "-u" + a.u, accounts: []Account{{supiA, 1, a.b, a.u}}, prefix: []Op{mkCreate(0, "smf1")}, depth: a.d,
-			rgs: one, usedSyms: []string{"zero", "half", "all"}, reqs: []int32{50, 100}})
+			rgs: one, usedSyms: []string{"zero", "half", "all"}, reqs: reqs})
 	}
 	scs = append(scs, acctScenario{name: "2sess-b300-u2", accounts: []Account{{supiA, 1, "300", "2"}}, depth: 4,
 		rgs: one, usedSyms: []string{"zero", "all"}, reqs: []int32{100}, twoSess: true})
